@@ -237,7 +237,47 @@ func docTypes(d *sbom.Document) string {
 // treeTrigger: does the stored edge list contain a contains edge whose source was already placed by an earlier edge?
 func treeTrigger(nl *sbom.NodeList) string { return "" }
 
+// wide: size classes (40 children, depth 20, bushy tree with dependencies, attribute-rich nodes).
+func wide(c *engine.Ctx) {
+	c.Group("wide")
+	lists := gen.WideLists()
+	var names []string
+	for k := range lists {
+		names = append(names, k)
+	}
+	sort.Strings(names)
+	c.Bound("wide", fmt.Sprintf("%d size-class documents %v x {1.4, 1.5}", len(names), names))
+	for _, name := range names {
+		for _, f := range versions {
+			name, f := name, f
+			c.Case(func() any { return map[string]string{"document": name, "format": string(f)} }, func(t *engine.T) *engine.Violation {
+				nl := gen.WideLists()[name]
+				if name == "bushy" {
+					// dependsOn edges are not part of the containment round trip: drop them from the expectation
+					var es []*sbom.Edge
+					for _, e := range nl.Edges {
+						if e.Type == sbom.Edge_contains {
+							es = append(es, e)
+						}
+					}
+					nl.Edges = es
+				}
+				for _, n := range nl.Nodes {
+					n.PrimaryPurpose = []sbom.Purpose{sbom.Purpose_LIBRARY}
+				}
+				if v := RoundTrip(t, docOf(nl), f); v != nil {
+					return v
+				}
+				t.State("wide|" + name + string(f))
+				t.Outcome("wide-ok")
+				return nil
+			})
+		}
+	}
+}
+
 func Run(c *engine.Ctx) {
+	wide(c)
 	trees(c)
 	enums(c)
 	attributes(c)
